@@ -256,7 +256,6 @@ func runL2(in c09in) (o c09obs) {
 // ---------------------------------------------------------------- L1
 
 type l1env struct {
-	guard  bool // the tree refuses a chunk duration <= 0 with 400 (probed once)
 	ls     *lib.Livesim
 	assets map[string]*lib.TLAsset
 	segDur map[string]int64 // SegmentDurMS of the loaded asset (hook), 0 if the hook is unavailable
@@ -404,11 +403,6 @@ func oracle(c *lib.Ctx, id string, in c09in, o c09obs) {
 		site = strings.Replace(site, ": runtime error: ", ":", 1)
 		site = strings.Replace(site, ": ", ":", 1)
 		fail("panic:"+site, "handler panicked: "+o.Panic)
-		return
-	}
-	if in.Kind == "l1" && (o.SegDurMS-o.AtoMSInt)*o.TS < 1000 && o.HTTP == 400 {
-		// availabilityTimeOffset >= segment duration is outside the property's domain; refusing it is fine
-		c.Count("l1:refused-chunkdur<=0")
 		return
 	}
 	if in.Kind == "l1" {
@@ -593,13 +587,11 @@ func c09term(i int, in c09in, o c09obs) string {
 		newTime, newNr, newDur = u64s(o.WholeTfdt), int64(o.WholeSeq), int64(uint32(sum))
 		availMS, atoChk, atoInt, ts, segDur, startS = o.AvailMS, o.AtoMSChk, o.AtoMSInt, o.TS, o.SegDurMS, in.StartS
 	}
-	return fmt.Sprintf("{| c_id := %d; c_guard := "+lib.Cbool(guardVariant)+"; c_durs := %s; c_hasStyp := %s; c_newTime := %s; c_newNr := %d; c_newDur := %d; c_chunkDur := %s; "+
+	return fmt.Sprintf("{| c_id := %d; c_durs := %s; c_hasStyp := %s; c_newTime := %s; c_newNr := %d; c_newDur := %d; c_chunkDur := %s; "+
 		"c_segDurMS := %d; c_atoMS := %s; c_atoChk := %s; c_ts := %d; c_startS := %d; c_availMS := %s; c_nowMS := %d; o_status := %d; o_chunks := [%s]; o_writes := %s |}",
 		i, lib.Zlist64(durs), lib.Cbool(o.WholeStyp), newTime, newNr, newDur, cd, segDur, lib.Zs(atoInt), lib.Zs(atoChk), ts, startS, lib.Zs(availMS), in.NowMS, o.Status,
 		strings.Join(chunks, "; "), lib.Zlist64(writes))
 }
-
-var guardVariant bool
 
 func u64s(v uint64) string { return strconv.FormatUint(v, 10) }
 
@@ -874,7 +866,7 @@ func (e *l1env) genL1(rng *rand.Rand, c *lib.Ctx) l1plan {
 		in.Why = fmt.Sprintf("adv+%d", x.off)
 		add("realtime", in, true)
 	}
-	// findings stream: ato equal to (or beyond) the segment duration
+	// outside the property's domain: ato equal to (or beyond) the segment duration (chunk duration <= 0)
 	for _, x := range []struct{ asset, rep, ato string }{
 		{"testpic_2s", "V300", "2"}, {"testpic_2s", "A48", "2"}, {"testpic_8s", "V300", "8"}, {"testpic_2s", "V300", "1.99999"},
 		{"testpic_2s", "V300", "3"}, {"testpic_2s", "A48", "2.5"}, {"testpic_8s", "A48", "8.001"}, {"testpic_2s", "V300", "2.04"}} {
@@ -886,7 +878,7 @@ func (e *l1env) genL1(rng *rand.Rand, c *lib.Ctx) l1plan {
 		in := c09in{Asset: x.asset, Rep: x.rep, Ato: x.ato, Chunkdur: "0.5", Mode: "number", Seg: 40 + rng.Int63n(1000)}
 		in.NowMS = in.StartS*1000 + ref.LoopE(in.Seg)*1000/ref.Timescale + 5000
 		in.Why = "ato=segdur"
-		add("findings:chunkdur<=0", in, false)
+		add("chunkdur<=0", in, false)
 	}
 	return p
 }
@@ -901,8 +893,6 @@ func runC09(c *lib.Ctx) error {
 	if c.Replay != "" {
 		return replayC09(c, env)
 	}
-	guardVariant = env.guard
-	c.Res.Notes = append(c.Res.Notes, fmt.Sprintf("writeChunkedSegment variant of this tree: guard against chunkDur <= 0 = %v", env.guard))
 	rng := rand.New(rand.NewSource(c.Seed))
 	nL2 := 2600
 	if c.Thorough() {
@@ -1024,9 +1014,6 @@ func newEnv() (*l1env, error) {
 		sd, _, _ := app.VerifC09AssetInfo(ls.Srv, a.Path)
 		e.segDur[a.Path] = int64(sd)
 	}
-	// which variant of writeChunkedSegment does the tree have? (ato = segment duration: chunkDur 0)
-	probe := ls.GetRecorded("/livesim2/chunkdur_0.5/ato_2/testpic_2s/V300/50.m4s?nowMS=200000")
-	e.guard = probe.Panic == "" && probe.Status == 400
 	return e, nil
 }
 
